@@ -1,12 +1,13 @@
 #!/bin/bash
 # confirm_mut.sh ID [NAME] : confirm a seeded change in /tmp/wt-ID (tests pass with it, demo fails with it and
 # passes without it) and store it as /verif/seeded/NAME/
+# WT_PREFIX / OUT_DIR choose the round (defaults: /tmp/wt- and /tmp/mut-out)
 id=$1; name=${2:-$1}
-wt=/tmp/wt-$id; out=/tmp/mut-out/$id
+wt=${WT_PREFIX:-/tmp/wt-}$id; out=${OUT_DIR:-/tmp/mut-out}/$id
 cd $wt || exit 2
 export CARGO_TARGET_DIR=$wt/target CARGO_NET_OFFLINE=true
-git diff > /tmp/mut-out/$id/patch.confirmed.diff
-[ -s /tmp/mut-out/$id/patch.confirmed.diff ] || { echo "no change in worktree"; exit 2; }
+git diff -- src > $out/patch.confirmed.diff
+[ -s $out/patch.confirmed.diff ] || { echo "no change in worktree"; exit 2; }
 echo "== tests with change"; cargo test --offline 2>&1 | grep -E "^test result|FAILED|failed" | head
 t_ok=$(cargo test --offline 2>&1 | grep -c "test result: ok")
 echo "== demo with change (expect fail)"; (cd $out && bash ./demo.sh >/dev/null 2>&1); with=$?
@@ -16,7 +17,7 @@ git stash pop -q
 echo "with=$with without=$without test_result_ok_lines=$t_ok"
 if [ "$with" != "0" ] && [ "$without" = "0" ] && [ "$t_ok" -ge 3 ]; then
   mkdir -p /verif/seeded/$name
-  cp /tmp/mut-out/$id/patch.confirmed.diff /verif/seeded/$name/patch.diff
+  cp $out/patch.confirmed.diff /verif/seeded/$name/patch.diff
   for f in demo.scm demo.sh expected.txt README.md; do [ -e $out/$f ] && cp $out/$f /verif/seeded/$name/; done
   for d in $(cd $out && find . -mindepth 1 -type d -not -name target); do mkdir -p /verif/seeded/$name/$d; cp -r $out/$d/. /verif/seeded/$name/$d/ 2>/dev/null; done
   echo CONFIRMED
